@@ -362,3 +362,20 @@ Qed.
 Check abbrev_dup_rejected : forall dbg ds rest,
   Forall abbrev_ok ds -> ~ NoDup (map ab_code ds) ->
   parse_abbrevs dbg (enc_decls ds ++ rest) = Err EDuplicateAbbreviationCode.
+Check raw_is_preorder : forall dbg bigend types uoff h codes f pad tbl,
+  let e := mkEnc (uh_version h) (uh_fmt64 h) (uh_asize h) bigend in
+  let body := enc_forest codes bigend (header_len h) f pad in
+  addr_size_ok e -> header_len h + nlen body < two63 -> body <> [] ->
+  Forall (fun t => tbl_get tbl (t_code codes t) = Some (t_abbrev codes t)) (forest_nodes f) ->
+  forest_ok codes e f -> sibs_fit codes (header_len h) f ->
+  read_all_raw dbg (mkUnit e (unit_length_of bigend h (nlen body)) (uh_type h) (uh_abbrev_off h) types uoff body)
+               tbl None
+  = Ok (raw_seq codes (header_len h) f pad, None)
+  /\ filter (fun d => negb (d_tag d =? 0)) (raw_seq codes (header_len h) f pad) = preorder codes (header_len h) 0 f.
+Check abbrev_get : forall dbg ds tail rest,
+  Forall abbrev_ok ds -> NoDup (map ab_code ds) ->
+  (tail = [] /\ rest = [] \/ tail = x00 :: rest) ->
+  exists t, parse_abbrevs dbg (enc_decls ds ++ tail) = Ok (t, rest) /\
+            (forall c, tbl_get t c = find (fun a => ab_code a =? c) ds) /\
+            (forall a, In a ds -> tbl_get t (ab_code a) = Some a) /\
+            (forall c a, tbl_get t c = Some a -> In a ds /\ ab_code a = c).
